@@ -1435,12 +1435,18 @@ impl StoryState {
         }
 
         if let Some(eval_stack_obj) = j_object.get("evalStack") {
-            self.evaluation_stack = json_read::jarray_to_runtime_obj_list(
+            let eval_stack = json_read::jarray_to_runtime_obj_list(
                 eval_stack_obj
                     .as_array()
                     .ok_or_else(|| StoryError::BadJson("evalStack is not an array.".to_owned()))?,
                 false,
             )?;
+
+            // Pushed one by one: a list on the stack has to find its origin definitions again
+            self.evaluation_stack = Vec::with_capacity(eval_stack.len());
+            for obj in eval_stack {
+                self.push_evaluation_stack(obj);
+            }
         }
 
         if let Some(current_divert_target_path) = j_object.get("currentDivertTarget") {
